@@ -1,6 +1,9 @@
 """C10 - Slice encoding round-trips and matches the wire format (table clauses only)."""
 import re
 
+import guards
+import rule_scopes
+
 from mirlib import AnchorMissing
 from helpers import vexpr, aggregates
 import codec
@@ -62,8 +65,13 @@ def r_collection_decoders_only_propagate(r, prog):
     r.floor(3)
 
 
+
+def r_encoder_preconditions(r, prog):
+    guards.evaluate(r, prog, rule_scopes.guards_codec_encode, 'guards_codec_encode.json', 90)
+
 def run(ctx):
     prog = ctx.prog
+    ctx.run_rule('C10.4', 'T13', 'conditions under which the encoders write, refuse and return (precondition ledger)', r_encoder_preconditions, prog)
     ctx.run_rule('C10.1', 'T6', 'fixed-width siblings: to_le_bytes / from_le_bytes of the same type and width', codec.r_fixed_width_siblings, prog)
     ctx.run_rule('C10.2a', 'T6', 'varint encoder width table (bits, type, length code, shift) and refusing arm', codec.r_varint_encoder, prog)
     ctx.run_rule('C10.2b', 'T6', 'varint decoder table: code k reads the (1<<k)-byte type of matching signedness, >> 2', codec.r_varint_decoder, prog)
